@@ -26,6 +26,14 @@ import (
 // vStubs maps callee names to the harness functions run in their place by the
 // symbolic executor. Natively nothing here is used.
 func vStubs() map[string]interface{} {
+	m := vBaseStubs()
+	for k, v := range c08Stubs() {
+		m[k] = v
+	}
+	return m
+}
+
+func vBaseStubs() map[string]interface{} {
 	return map[string]interface{}{
 		"google.golang.org/grpc/status.Errorf":                      stubStatusErrorf,
 		"google.golang.org/grpc/status.Error":                       stubStatusError,
@@ -202,6 +210,9 @@ func stubLdbPut(db *leveldb.DB, key, value []byte, wo *opt.WriteOptions) error {
 	if f.closed {
 		return leveldb.ErrClosed
 	}
+	if f.path != "" {
+		vEffect() // a write to an on-disk database is one atomic durable effect
+	}
 	i := vLdbFind(f, key)
 	kv := &vKV{key: append([]byte{}, key...), val: value}
 	if i < len(f.kvs) && bytes.Equal(f.kvs[i].key, key) {
@@ -224,6 +235,9 @@ func stubLdbDelete(db *leveldb.DB, key []byte, wo *opt.WriteOptions) error {
 	defer f.mu.Unlock()
 	if f.closed {
 		return leveldb.ErrClosed
+	}
+	if f.path != "" {
+		vEffect()
 	}
 	i := vLdbFind(f, key)
 	if i < len(f.kvs) && bytes.Equal(f.kvs[i].key, key) {
